@@ -142,25 +142,28 @@ func c15Main(c *hx.Ctx, bin string) {
 		type src struct {
 			name, pointee string
 			raw, plain    []byte
+			mode          os.FileMode // permission bits of the data file (for a link: of what it points to)
 		}
 		srcs := make([]src, len(k.Files))
 		var names []string
 		for i, f := range k.Files {
 			raw, plain := mk(f.Content, int64(ci*5+i+1))
-			s := src{raw: raw, plain: plain}
+			s := src{raw: raw, plain: plain, mode: []os.FileMode{0o644, 0o600, 0o400, 0o640, 0o444}[(ci+i)%5]}
 			sfx := suffix[f.Content]
 			switch f.Kind {
 			case "reg":
 				s.name = fmt.Sprintf("r%d%s", i+1, sfx)
 				os.WriteFile(filepath.Join(dir, s.name), raw, 0o644)
+				os.Chmod(filepath.Join(dir, s.name), s.mode)
 			case "setgid":
 				s.name = fmt.Sprintf("g%d%s", i+1, sfx)
 				os.WriteFile(filepath.Join(dir, s.name), raw, 0o644)
-				os.Chmod(filepath.Join(dir, s.name), 0o644|os.ModeSetgid)
+				os.Chmod(filepath.Join(dir, s.name), s.mode|os.ModeSetgid)
 			case "symlink":
 				s.name = fmt.Sprintf("s%d%s", i+1, sfx)
 				s.pointee = fmt.Sprintf("p%d.dat", i+1)
 				os.WriteFile(filepath.Join(dir, s.pointee), raw, 0o644)
+				os.Chmod(filepath.Join(dir, s.pointee), s.mode)
 				os.Symlink(s.pointee, filepath.Join(dir, s.name))
 			case "dangling":
 				s.name = fmt.Sprintf("x%d%s", i+1, sfx)
@@ -288,8 +291,8 @@ func c15Main(c *hx.Ctx, bin string) {
 					c.Violation(sig("target-content", i), fmt.Sprintf("%q: %s does not hold the expected content", full, n), replay)
 					return
 				}
-				if fi, err := os.Stat(filepath.Join(dir, n)); err == nil && fi.Mode().Perm()&^0o644 != 0 {
-					c.Violation(sig("permission-added", i), fmt.Sprintf("%q: %s has mode %o, the input had 644", full, n, fi.Mode().Perm()), replay)
+				if fi, err := os.Stat(filepath.Join(dir, n)); err == nil && fi.Mode().Perm()&^srcs[i].mode != 0 {
+					c.Violation(sig("permission-added", i), fmt.Sprintf("%q: %s has mode %o, the input had %o", full, n, fi.Mode().Perm(), srcs[i].mode), replay)
 					return
 				}
 			case got != v:
